@@ -13,6 +13,8 @@ Ops (see `harness/go/cmd/c06`):
   flush-remove                         → ok n=<k>
   drain                                → drained to=<ids|-> | panic negative-waitgroup
   idle ms=<n>                          → to=<ids|->            (real time passes, mock time does not)
+  tick-hold                            → to=<ids|-> log=<events|-> held=<id|->   (gate `queue.before-repush`)
+  tick-release                         → log=<events|->        (only while held)
   await bound=<ms>    (mode=real only) → blocked=<ids|-> within=1
 -/
 open LunarVerif LunarVerif.Proto LunarVerif.C06
@@ -75,6 +77,7 @@ structure RunSt where
   real : Bool := false
   drained : Bool := false
   dead : Bool := false
+  held : Bool := false       -- the loop stands at the gate before a re-push
 
 def RunSt.s (st : RunSt) : St := st.x.s
 def RunSt.op (st : RunSt) (op : Op) : RunSt := { st with x := applyOp st.cfg st.x op }
@@ -113,6 +116,7 @@ def runStep (st : RunSt) (line : String) : RunSt × String :=
     if !st.ready then (st, "bad-op")
     else if st.dead then (st, "dead")
     else if st.drained then (st, "bad-op")
+    else if st.held && op != "arrive" && op != "tick-release" && op != "idle" then (st, "bad-op")
     else
     let n0 := st.s.trace.length
     match op with
@@ -147,6 +151,16 @@ def runStep (st : RunSt) (line : String) : RunSt × String :=
         let st' := st.op .idle
         (st', s!"to={fmtIds (timeouts (newEvents st'.s n0))}")
       | none => (st, "bad-op")
+    | "tick-hold" =>
+      if st.real || !ws.isEmpty then (st, "bad-op") else
+      let st' := st.op .tickHold
+      let evs := newEvents st'.s n0
+      let (h, hs) := match st'.s.loop with | .refused i => (true, toString i) | _ => (false, "-")
+      ({ st' with held := h }, s!"to={fmtIds (timeouts evs)} log={fmtLog evs} held={hs}")
+    | "tick-release" =>
+      if !st.held || !ws.isEmpty then (st, "bad-op") else
+      let st' := st.op .tickRelease
+      ({ st' with held := false }, s!"log={fmtLog (newEvents st'.s n0)}")
     | "hold-remove" =>
       if st.real then (st, "bad-op") else (st.op .holdRemove, "ok")
     | "flush-remove" =>
@@ -234,7 +248,29 @@ def judgeStep (s : JudgeSt) (op out : String) : JudgeSt :=
       | none => fail "not-at-gate"
     | _, "bad-op" => s
     | _, _ => fail "unparsable"
-  | ["tick"] =>
+  | ["tick-release"] =>
+    match kv ows "log" with
+    | some lg =>
+      if lg == "-" then s else
+      match (lg.splitOn ",").foldlM parseLogItem s with
+      | some s3 => s3
+      | none => fail "unparsable"
+    | none => if out == "bad-op" || out == "dead" then s else fail "unparsable"
+  | [tk] =>
+    if tk != "tick" && tk != "tick-hold" then
+      (if tk == "hold-remove" then (if out == "ok" then { s with hold := true } else s)
+       else if tk == "flush-remove" then
+         (if out.startsWith "ok" then { s.push (s.held.map .unwatched) with hold := false, held := [] } else s)
+       else if tk == "drain" then
+         (match ows with
+          | ["panic", _] => s.push [.drain, .panic]
+          | ["drained", w] =>
+            match kv [w] "to" >>= parseIds with
+            | some ids => ids.foldl (fun s i => s.verdict i false) (s.push [.drain])
+            | none => fail "unparsable"
+          | _ => if out == "bad-op" || out == "dead" then s else fail "unparsable")
+       else s)
+    else
     match kv ows "to", kv ows "log" with
     | some to, some lg =>
       let s1 := { s with now := s.now + 100 }
@@ -251,17 +287,6 @@ def judgeStep (s : JudgeSt) (op out : String) : JudgeSt :=
     match kv ows "to" >>= parseIds with
     | some ids => ids.foldl (fun s i => s.verdict i false) s
     | none => if out == "bad-op" || out == "dead" then s else fail "unparsable"
-  | ["hold-remove"] => if out == "ok" then { s with hold := true } else s
-  | ["flush-remove"] =>
-    if out.startsWith "ok" then { s.push (s.held.map .unwatched) with hold := false, held := [] } else s
-  | ["drain"] =>
-    match ows with
-    | ["panic", _] => s.push [.drain, .panic]
-    | ["drained", w] =>
-      match kv [w] "to" >>= parseIds with
-      | some ids => ids.foldl (fun s i => s.verdict i false) (s.push [.drain])
-      | none => fail "unparsable"
-    | _ => if out == "bad-op" || out == "dead" then s else fail "unparsable"
   | "await" :: _ =>
     match kv ows "blocked" >>= parseIds, kv ows "within" with
     | some ids, some w =>
